@@ -14,13 +14,19 @@
   OBLIGATION c13_number_violated_by_intAsFloat
   OBLIGATION c13_number_violated_by_floatDoubleRounding
   OBLIGATION c13_full_violated_by_numberDigitFollow
+  OBLIGATION c13_block
+  OBLIGATION c13_unique
+  OBLIGATION c13_depth_accept
+  OBLIGATION c13_depth_within
+  OBLIGATION c13_depth
+  OBLIGATION c13_depth_unrestricted_false
   OPEN c13_full
-  OPEN c13_block
   OPEN c13_number
-  OPEN c13_unique
-  OPEN c13_depth
 -/
 import AGV.Lemmas.ParseC13
+import AGV.Lemmas.ParseC13Unique
+import AGV.Lemmas.ParseC13Depth
+import AGV.Lemmas.ParseC13Block
 
 namespace AGV.Props.C13
 open AGV.Model.BuildAst AGV.Core.PAst AGV.Lemmas.ParseC13
@@ -114,10 +120,24 @@ def c13_full : Prop :=
      | .error _ => none) =
     (AGV.Spec.Parse.parseDocument {} s).map (fun d => sResult (.ok d))
 
-/-- OPEN.  `block_string_value` without its two defects is `BlockStringValue()` on every raw text
-    (closed so far: the line split `c13_block_lines`; the rest is sampled by the `blk` cases). -/
-def c13_block : Prop :=
-  ∀ raw : List Char, specBlock raw ≠ none → some (blockStringValue {} raw) = specBlock raw
+/-- `block_string_value` without its two defects is `BlockStringValue()` on every raw text that
+    is the content of a block string (the specification's lexer reads `raw"""` as one block string
+    ending at the final quotes): `\"""` unescaping, line split, common indent, removal of leading
+    and trailing blank lines. -/
+theorem c13_block :
+    ∀ raw : List Char, specBlock raw ≠ none → some (blockStringValue {} raw) = specBlock raw := by
+  intro raw h
+  have e : blockStringValue {} raw = blockStringValue { blockEscapeKept := true } (unescapeTriple raw) := rfl
+  unfold specBlock at h ⊢
+  split
+  · rename_i v hv
+    rw [e, blockPipeline_eq, lexBlock_unescape raw v hv]
+  · rename_i hn
+    split at h
+    · rename_i v hv; exact absurd hv (hn v)
+    · exact absurd rfl h
+
+example : specBlock "\n    a\\\"\"\"\n  \n      b\n  ".toList ≠ none := by decide
 
 /-- OPEN.  The (patched) `number` rule accepts exactly the specification's number tokens. -/
 def c13_number : Prop :=
@@ -127,18 +147,71 @@ def c13_number : Prop :=
      | _ => none) =
     (AGV.Spec.Lex.lexNumber s).map (·.2)
 
-/-- OPEN.  The uniqueness loop of `parse_query` decides exactly the document-level rules. -/
-def c13_unique : Prop :=
-  ∀ defs : List PDef,
+/-- The uniqueness loop of `parse_query` decides exactly the document-level rules (operation
+    names unique, a lone anonymous operation, fragment names unique, at least one operation) and
+    builds the document the specification builds, for every list of definitions. -/
+theorem c13_unique :
+    ∀ defs : List PDef,
     (match collectDefs defs with | .ok d => some d | .error _ => none) =
-    (if AGV.Spec.Parse.validDefs {} defs then AGV.Spec.Parse.mkDoc defs else none)
+    (if AGV.Spec.Parse.validDefs {} defs then AGV.Spec.Parse.mkDoc defs else none) := by
+  intro defs
+  rw [← collectDefs_spec defs]
+  cases collectDefs defs <;> rfl
 
-/-- OPEN.  Accepted ⇒ at most `maxDepth` selection sets nest below a top-level one, and a tree within
-    the limit is never rejected for depth. -/
-def c13_depth : Prop :=
+/-- Accepted ⇒ at most `lim` selection sets nest below the top-level one: for every pair tree. -/
+theorem c13_depth_accept (env : Env) (f lim : Nat) (p : AGV.Model.Peg.Pair) (ss : List PSel) :
+    buildSelSet env f lim p = .ok ss → AGV.Spec.Parse.selDepth f ss ≤ lim :=
+  buildSelSet_depth_le env f lim p ss
+
+/-- … in particular a document accepted by `parse_query` nests at most `MAX_RECURSION_DEPTH`
+    (read from executable.rs) selection sets below each top-level one. -/
+theorem c13_depth_accept_max (env : Env) (f : Nat) (p : AGV.Model.Peg.Pair) (ss : List PSel) :
+    buildSelSet env f maxDepth p = .ok ss →
+    AGV.Spec.Parse.selDepth f ss ≤ AGV.Gen.ParserLimits.maxRecursionDepth :=
+  buildSelSet_depth_le env f maxDepth p ss
+
+/-- A tree within the limit is never rejected for depth: on pair trees in which every
+    `selection_set` pair has an inner pair (what `selection_set = { "{" ~ selection+ ~ "}" }`
+    emits), a result obtained under any limit `lim'` whose nesting is ≤ `lim` is also the result
+    under `lim`. -/
+theorem c13_depth_within (env : Env) (f lim lim' : Nat) (p : AGV.Model.Peg.Pair) (ss : List PSel)
+    (wf : SetsNonEmpty p) :
+    buildSelSet env f lim' p = .ok ss → AGV.Spec.Parse.selDepth f ss ≤ lim →
+    buildSelSet env f lim p = .ok ss :=
+  buildSelSet_within_limit env f lim lim' p ss wf
+
+/-- the pair tree of `{a{b}}` satisfies the hypothesis -/
+example : SetsNonEmpty
+    (.mk "selection_set" 0 6 [.mk "selection" 1 5 [.mk "field" 1 5 [.mk "name" 1 2 [],
+      .mk "selection_set" 2 5 [.mk "selection" 3 4 [.mk "field" 3 4 [.mk "name" 3 4 []]]]]]]) := by
+  repeat (first | (refine .mk _ _ _ _ (by simp) ?_; intro q hq; simp at hq; try subst hq) | (rcases hq with rfl | rfl))
+
+/-- The depth limit, both directions (the statement as first written, with the hypothesis on the
+    pair tree the second half needs — see `c13_depth_unrestricted_false`). -/
+theorem c13_depth :
+    ∀ (env : Env) (f lim : Nat) (p : AGV.Model.Peg.Pair) (ss : List PSel),
+    (buildSelSet env f lim p = .ok ss → AGV.Spec.Parse.selDepth f ss ≤ lim) ∧
+    (SetsNonEmpty p → ∀ lim', buildSelSet env f lim' p = .ok ss → AGV.Spec.Parse.selDepth f ss ≤ lim →
+      buildSelSet env f lim p = .ok ss) :=
+  fun env f lim p ss =>
+    ⟨buildSelSet_depth_le env f lim p ss, fun wf lim' => buildSelSet_within_limit env f lim lim' p ss wf⟩
+
+/-- The statement without the hypothesis (as it stood under OPEN) … -/
+def c13_depth_unrestricted : Prop :=
   ∀ (env : Env) (f lim : Nat) (p : AGV.Model.Peg.Pair) (ss : List PSel),
     (buildSelSet env f lim p = .ok ss → AGV.Spec.Parse.selDepth f ss ≤ lim) ∧
     (∀ lim', buildSelSet env f lim' p = .ok ss → AGV.Spec.Parse.selDepth f ss ≤ lim →
       buildSelSet env f lim p = .ok ss)
+
+/-- … is FALSE of the model, for a pair tree the grammar cannot produce: a field whose
+    `selection_set` pair has no inner pair builds `a` with an empty (= absent) sub-selection, which
+    `selDepth` counts as a leaf (depth 0), but the builder has already spent one level on it and
+    reports `depth` at limit 0.  The model follows executable.rs here (the check precedes the
+    descent); the statement needed the grammar's guarantee `selection+`. -/
+theorem c13_depth_unrestricted_false : ¬ c13_depth_unrestricted := by
+  intro h
+  have h2 := (h ⟨{}, #[]⟩ 2 0 badSet [.field none [] [] [] []]).2 1 bad_ok (by decide)
+  rw [bad_err] at h2
+  cases h2
 
 end AGV.Props.C13
